@@ -861,6 +861,31 @@ pub fn describe_value(v: &Value) -> String {
     }
 }
 
+/// Canonical form of a value for order-insensitive comparison: map entries sorted by key.
+pub fn canon(v: &RV) -> RV {
+    match v {
+        RV::Union(i, x) => RV::Union(*i, Box::new(canon(x))),
+        RV::Array(xs) => RV::Array(xs.iter().map(canon).collect()),
+        RV::Record(xs) => RV::Record(xs.iter().map(canon).collect()),
+        RV::Map(es) => {
+            let mut es: Vec<(String, RV)> = es.iter().map(|(k, v)| (k.clone(), canon(v))).collect();
+            es.sort_by(|a, b| a.0.cmp(&b.0));
+            RV::Map(es)
+        }
+        other => other.clone(),
+    }
+}
+
+/// Do `got` bytes hold exactly one datum equal to `expected`, ignoring the order of map entries?
+pub fn same_datum(got: &[u8], expected: &RV, s: &RS, defs: &Defs) -> bool {
+    let mut p = 0;
+    let mut budget = 1_000_000;
+    match crate::refimpl::decode(s, defs, got, &mut p, &mut budget) {
+        Some(v) => p == got.len() && canon(&v) == canon(expected),
+        None => false,
+    }
+}
+
 /// All named definitions inside a schema tree, by full name.
 pub fn collect_defs(s: &RS, out: &mut Defs) {
     match s {
